@@ -141,7 +141,17 @@ func (g *c15Gen) action() bool {
 	var stmts []*ast.Node
 	label := ""
 	res := func(e *ast.Node) { stmts = append(stmts, ast.Print(ast.Str("R"), e)) }
-	switch k := g.n(0, 26, "op"); {
+	switch k := g.n(0, 27, "op"); {
+	case k == 27:
+		// the same array stored twice in another one (pushed, and written to an index): it is
+		// shown twice, in full - shared is not circular
+		b := g.pickArr("shared")
+		if b.name == a.name {
+			return true
+		}
+		stmts = append(stmts, ast.ExprS(ast.Method(ast.Method(a.expr(), "push", b.expr()), "push", b.expr())), ast.ExprS(ast.Set(ast.Idx(a.expr(), ast.Num("0")), b.expr())))
+		label = "same-array-stored-twice"
+		g.last[a.name] = ""
 	case k == 26:
 		// a fresh array from a literal that is evaluated again and again (inside mk): every
 		// evaluation makes a list of its own, whatever happened to the earlier ones
